@@ -171,6 +171,26 @@ def rule_r4(facts, col, rule_id="C02.R4"):
                     "e.g. Delay, never forward a tag)", {})
 
 
+def rule_r5(facts, col, rule_id="C02.R5"):
+    """tags are stored under a ring position: the key handed to the map in the commit body is reduced modulo the
+    capacity (consume removes keys in ranges inside [0, capacity) only)"""
+    for body, bb, t, kind in tag_map_calls(facts):
+        if kind != "insert" or body_role(facts, body) != "commit" or body.kind == "closure":
+            continue
+        if t["f"].get("name") not in ("entry", "insert", "try_insert") or len(t["args"]) < 2:
+            continue
+        key = "%s:%s:key" % (body.q, t["f"]["name"])
+        k = peel(body.operand_expr(t["args"][1]), through_try=False)
+        ok = k.k == "bin" and k.op == "Rem" and any(x.k == "call" and (x.q or "").endswith("BufferState::capacity") for x in walk(k.b))
+        if ok:
+            col.ok(rule_id, key, body.where(bb), "key = (..) % capacity()")
+        else:
+            col.bad(rule_id, key, body.where(bb),
+                    "the position a tag is stored under is not reduced modulo the ring capacity (%s): for a commit that straddles the "
+                    "wrap point the key is >= capacity, consume() - which scans [0, capacity) - never removes it, and the tag reappears "
+                    "on unrelated samples on later laps" % show(k)[:80], {})
+
+
 UNSTABLE_SORTS = {"sort_unstable", "sort_unstable_by", "sort_unstable_by_key", "select_nth_unstable", "select_nth_unstable_by",
                   "select_nth_unstable_by_key", "reverse", "swap", "rotate_left", "rotate_right", "dedup", "dedup_by_key", "dedup_by"}
 STABLE_SORTS = {"sort", "sort_by", "sort_by_key", "sort_by_cached_key"}
@@ -208,6 +228,8 @@ def run(ctx):
     rule_r2(facts, ctx)
     rule_r3(facts, ctx)
     rule_r4(facts, ctx)
+    rule_r5(facts, ctx)
+    ctx.floor("C02.R5", 1, "tag key in the commit body")
     ctx.floor("C02.R4", 1, "tag removal in consume")
     ctx.floor("C02.R3", 1, "tags.sort_by_key in read_buf")
     ctx.floor("C02.R1", 3, "1 inserting (entry) + 1 removing (remove) call site + read-only read_buf")
